@@ -78,6 +78,11 @@ def cases(draw, convs=S.ALL_CONVS):
     conv = draw(st.sampled_from(list(convs)))
     spec = {"conv": conv, "geom": draw(S.geometry(conv, max_n=4, max_j=3, max_i=3,
                                                    allow_bowtie=True, jitter=None))}
+    # one model in four numbers its longitudes 0..360 and lies (partly) east of 180
+    east = draw(st.sampled_from([0.0, 0.0, 0.0, 200.0]))
+    if east:
+        S.shift_geometry(spec["geom"], dx=east)
+        spec["shifted_east_by"] = east
     name, dim = c12.DEPTH_NAMES.get(conv, c12.GENERIC_DEPTHS)[0]
     dc = draw(c12.depth_coordinate(name, dim, with_bounds=draw(st.booleans())))
     if dc["name"] == dc["dim"]:
@@ -124,7 +129,7 @@ def check_case(case, ctx):
                 # exercised on the conventions whose corners are exact.
                 sel = dict(sel, kind="interior")
             xy = make_vertex(sel, rings, hole_rings, bbox)
-            if xy is not None and -179 < xy[0] < 179 and -89 < xy[1] < 89:
+            if xy is not None and -179 < xy[0] < 359 and -89 < xy[1] < 89:
                 pts.append((float(xy[0]), float(xy[1])))
         dx, dy = DIRECTIONS[case["direction"]]
         pts.sort(key=lambda p: (p[0] * dx + p[1] * dy))
@@ -194,9 +199,29 @@ def check_case(case, ctx):
                 ends.append((line.project(point), dist))
         ends.sort(key=lambda e: e[0])
         for (p0, d0), (p1, d1) in zip(ends, ends[1:]):
-            ctx.check(d1 >= d0 - 1e-6 * max(abs(d0), 1.0) or abs(p1 - p0) <= 1e-12, "C18.distance_monotone",
+            # (projected coordinates carry millimetres of rounding noise - 1e-9 of the Earth's
+            # radius: two points closer together than a centimetre may swap)
+            ctx.check(d1 >= d0 - 1e-6 * max(abs(d0), 1.0) - 0.01 or abs(p1 - p0) <= 1e-12, "C18.distance_monotone",
                       lambda: f"{what}: distance along the path is not monotone: parameter {p0} -> {d0} m, "
                       f"{p1} -> {d1} m")
+        # the distances themselves: metres along the path, vertex to vertex along geodesics of
+        # the WGS84 ellipsoid (reference: pyproj's geodesic solver, independent of cartopy's
+        # projections)
+        import pyproj
+        geod = pyproj.Geod(ellps="WGS84")
+        planar = [0.0]
+        metres = [0.0]
+        for (x0, y0), (x1, y1) in zip(path, path[1:]):
+            planar.append(planar[-1] + math.hypot(x1 - x0, y1 - y0))
+            metres.append(metres[-1] + geod.inv(x0, y0, x1, y1)[2])
+        for s, seg in enumerate(segments):
+            for point, dist in ((seg.start_point, seg.start_distance), (seg.end_point, seg.end_distance)):
+                t = line.project(point)
+                k = max(q for q in range(len(path) - 1) if planar[q] <= t + 1e-12)
+                ref = metres[k] + geod.inv(path[k][0], path[k][1], point.x, point.y)[2]
+                ctx.check(abs(dist - ref) <= 1e-6 * max(ref, 1.0) + 0.01, "C18.distance_value",
+                          lambda: f"{what}: segment {s} point ({point.x}, {point.y}) is reported at "
+                          f"{dist} m along the path; along geodesics from vertex {k} it is at {ref} m")
         # transect dataset and prepared data
         ctx.at("C18.transect_dataset")
         tds = transect.transect_dataset
@@ -251,6 +276,8 @@ def check_case(case, ctx):
     kinds = {sel["kind"] for sel in case["vertices"]}
     ctx.label("conv:" + spec["conv"])
     ctx.label(f"vertices:{len(path)}")
+    if spec.get("shifted_east_by"):
+        ctx.label("model_east_of_180")
     ctx.label("segments:" + ("0" if not segments else "1-2" if len(segments) < 3 else "3+"))
     if not start_hits:
         ctx.label("starts_outside")
